@@ -1,8 +1,9 @@
 (** C14 - a default schema equals explicit qualification (refutation witness). *)
 From SV Require Import Tree.Observe Ident.Escape Props.Witness.
 
-(** K-C14-1: a qualifier that names no relation in scope becomes Table(qualifier), whose schema is the
-    default argument evaluated at import time, not the default schema in force *)
+(** Regression witness for fix F5: before it, a qualifier that names no relation in scope became Table(qualifier)
+    whose schema was the default argument evaluated at import time ([e_icfg]), not the default schema in force
+    ([e_cfg]); the model keeps the two apart so that the old behaviour stays expressible. *)
 Theorem c14_refuted_dangling_qualifier :
   script_pairs (mk_env "ansi" "ods" "" {| p_truthy := false; p_cols := [] |} []) false [] [w_dangling_qualifier]
   = ["<default>.zz.a>ods.x.a"].
@@ -16,3 +17,10 @@ Theorem c14_schema_of : forall cfg n,
   schema_of "" None = "<default>".
 Proof. intros. split; reflexivity. Qed.
 Print Assumptions c14_schema_of.
+
+(** after the fix both coincide and the dangling qualifier gets the schema in force *)
+Theorem c14_dangling_qualifier_fixed :
+  script_pairs (mk_env "ansi" "ods" "ods" {| p_truthy := false; p_cols := [] |} []) false [] [w_dangling_qualifier]
+  = ["ods.zz.a>ods.x.a"].
+Proof. vm_compute. reflexivity. Qed.
+Print Assumptions c14_dangling_qualifier_fixed.
